@@ -50,7 +50,9 @@ type Report struct {
 	Explanation string
 	Exhaustive  bool
 	Extra       map[string]any
-	broken      []string
+	// Alias maps rule ids while a shared rule runs on behalf of another property (e.g. R07.2 → R10.4).
+	Alias  map[string]string
+	broken []string
 }
 
 // NewReport creates a report.
@@ -67,11 +69,13 @@ func (r *Report) Rule(id, text string, min int) {
 
 // OK records a discharged obligation.
 func (r *Report) OK(rule, construct, what string) {
+	rule = r.alias(rule)
 	r.Obls = append(r.Obls, &Obligation{Rule: rule, Construct: construct, What: what, Status: Discharged})
 }
 
 // Bad records a violated obligation. kind is a short stable word describing what fails (no line numbers).
 func (r *Report) Bad(rule, construct, kind, pos, detail string, trace []string) {
+	rule = r.alias(rule)
 	key := rule + "|" + construct + "|" + kind
 	for _, o := range r.Obls {
 		if o.Status == Violated && o.Key == key {
@@ -83,7 +87,15 @@ func (r *Report) Bad(rule, construct, kind, pos, detail string, trace []string) 
 
 // Unknown records an undecided obligation (the run is then broken, never green).
 func (r *Report) Unknown(rule, construct, why string) {
+	rule = r.alias(rule)
 	r.Obls = append(r.Obls, &Obligation{Rule: rule, Construct: construct, Status: Undecided, Detail: why})
+}
+
+func (r *Report) alias(rule string) string {
+	if a, ok := r.Alias[rule]; ok {
+		return a
+	}
+	return rule
 }
 
 // Broken marks the run as broken for an infrastructure reason.
